@@ -178,6 +178,20 @@ PROPS = {
         trusted=COMMON_TB + ["encoding/json, encoding/hex (compared, not modelled)"],
         assumptions=["JSON serialisability of stored value types is established by marshalling every captured event, not by a theorem"],
     ),
+    "C11": dict(
+        modules=["HT.Props.C11"],
+        streams=["c11path"],
+        rule="filepath.Clean on every string over {a,b,.,/} up to length 7 (quick) / 8 (thorough) and seeded Join pairs vs "
+             "the Lean port; the real Htfs.RealPath/ChangeDir on a real directory tree (root/{a,b}/{a,b}/…, sentinel tree "
+             "beside the root) for every path of up to 4 (quick) / 5 (thorough) components over {a,b,..,.,''}, absolute and "
+             "relative, from every reachable working directory, plus long/odd paths; seeded FTP command sequences (CWD, CDUP, "
+             "PWD, MKD, RMD, DELE, RNFR+RNTO, SIZE, MDTM) through the real service with the sentinel tree digested before and "
+             "after; non-trivial = the path contains '..'; distinct = distinct case line",
+        trusted=COMMON_TB + ["Lean port of path/filepath Clean/Join (compared exhaustively on the small alphabet every run)",
+                             "the OS file system; root assumed free of symlinks leaving it"],
+        assumptions=["containment is lexical", "data-connection commands (STOR/APPE/RETR/LIST/NLST) are covered through "
+                     "RealPath at the driver level, not over the wire"],
+    ),
 }
 
 HOOK_COMMITS = ["0596fc6", "c47bf54", "a8020ca"]
@@ -186,6 +200,16 @@ NOT_BUILT = "check not built yet in this round (design in DESIGN.md section 7); 
 NOT_APPLICABLE = {("C%02d" % i): NOT_BUILT for i in range(1, 21)}
 
 MANIFEST_TEXT = {
+    "C11": dict(
+        text="Lean theorems on path component lists: cleaning a rooted path leaves no empty/./.. component; RealPath of any "
+             "path argument from any clean working directory is the root's components followed by such components (inside the "
+             "root); the working directory after any ChangeDir, and by induction after any sequence of directory changes, is "
+             "again clean. The Lean port of filepath.Clean/Join is compared with Go's exhaustively on a small alphabet and the "
+             "real Htfs/FTP service is run against a sentinel tree on every check.",
+        design_ref="DESIGN.md section 7, C11",
+        note="Trusted: Lean kernel; HT.Path port of path/filepath; the OS. Lexical containment only (no symlinks).",
+        technique="Lean 4 proof (invariant over the Clean fold, induction over command sequences) + exhaustive differential correspondence",
+    ),
     "C05": dict(
         text="Lean theorems: hex decode . hex encode = id for every byte string; the payload option stores a hex field that "
              "decodes to the data and a length field equal to its length; tcp/udp address options store the connection's ip "
